@@ -37,7 +37,9 @@ PMul2(p, q) == <<RMul(p[1], q[1]), RMul(p[2], q[2])>>
 
 (* displacements and rotations: rotations are minus the slopes of w *)
 Uvw(d, c, x, y) ==
-    << Series(d, c, U, 0, 0, x, y), Series(d, c, V, 0, 0, x, y), Series(d, c, W, 0, 0, x, y),
+    << IF d.model = "plate_w" THEN PairZero ELSE Series(d, c, U, 0, 0, x, y),      \* the w-only model has no in-plane field
+       IF d.model = "plate_w" THEN PairZero ELSE Series(d, c, V, 0, 0, x, y),
+       Series(d, c, W, 0, 0, x, y),
        PNeg2(Series(d, c, W, 1, 0, x, y)), PNeg2(Series(d, c, W, 0, 1, x, y)) >>
 
 (* linear strains: the rows of the kinematic table applied to the series *)
